@@ -108,6 +108,27 @@ theorem inputs_distinct_full_refuted : ¬ inputs_distinct_full := by
     _ 100 [.spend 1 0 8 true, .control 0 7 5] _ rfl
   revert this; decide
 
+/-- `build_inputs_distinct_partial`: when no output is listed twice in the wallet (the
+    wallet-DB records and the unconfirmed map are disjoint), a successfully built template —
+    any number of spend actions, accounts and assets — never spends an output twice. -/
+theorem build_inputs_distinct_partial (sortFn : List Utxo → List Utxo) (hperm : ∀ l, (sortFn l).Perm l) (k k' : Keeper)
+    (exp : Nat) (actions : List Action) (t : Tpl) (hl : ListedNodup k)
+    (h : buildWith sortFn k exp actions = (.ok t, k')) : (t.ins.map (·.id)).Nodup := by
+  unfold buildWith at h
+  cases hr : runActions sortFn exp actions 0 (k, ⟨[], [], []⟩) with
+  | mk s errs =>
+    obtain ⟨k1, b⟩ := s
+    rw [hr] at h
+    simp only at h
+    cases errs with
+    | cons e es => simp at h
+    | nil =>
+      simp only [List.isEmpty_nil, if_true, Prod.mk.injEq, Except.ok.injEq] at h
+      obtain ⟨rfl, rfl⟩ := h
+      have := runActions_dinv sortFn hperm exp actions 0 (k, ⟨[], [], []⟩) (k1, b) hr
+        ⟨by simp, by intro u hu; simp at hu⟩ hl
+      exact this.1
+
 /-- a single spend action over a wallet without doubly listed outputs spends distinct outputs -/
 theorem single_spend_inputs_distinct (sortFn : List Utxo → List Utxo) (hperm : ∀ l, (sortFn l).Perm l) (k : Keeper)
     (acct asset amount : Nat) (useUnc : Bool) (exp : Nat) (s' : Keeper × Builder)
